@@ -232,6 +232,13 @@ def usage_cases(r, base):
                   dict(input_text=text, spec=rules, cmd_override=['/tmp'])))
     cases.append(('command-not-executable',
                   dict(input_text=text, spec=rules, _nonexec=True)))
+    cases.append(('cc-command-not-a-file',
+                  dict(input_text=text, spec=rules,
+                       opts=['-c', '/nonexistent/solver'])))
+    cases.append(('cc-command-is-directory',
+                  dict(input_text=text, spec=rules, opts=['-c', '/tmp'])))
+    cases.append(('cc-command-not-executable',
+                  dict(input_text=text, spec=rules, _cc_nonexec=True)))
     cases.append(('match-out-absent',
                   dict(input_text=text, spec=rules,
                        opts=['--match-out', 'NOT-IN-OUTPUT'])))
@@ -248,6 +255,12 @@ def run_usage(res, base, name, kw, entry):
     rm = kw.pop('_remove_input', False)
     isdir = kw.pop('_input_dir', False)
     nonexec = kw.pop('_nonexec', False)
+    if kw.pop('_cc_nonexec', False):
+        ne = os.path.join(wd, 'cc_notexec')
+        with open(ne, 'w') as f:
+            f.write('#!/bin/sh\nexit 1\n')
+        os.chmod(ne, 0o644)
+        kw['opts'] = ['-c', ne]
     if rm:
         kw['infile_name'] = 'sub/in.smt2'  # never created: parent missing
     if nonexec:
@@ -398,7 +411,7 @@ def run(ctx):
         'unbalanced / empty / comment-only texts; permissive predicates '
         '(all/has/ntok/count/hash) so that ddSMT itself walks through '
         'ill-formed intermediates; all strategies, -j{1,2,4}, theory groups '
-        'forced on; SIGINT at a random instant (every 11th run); plus 8 '
+        'forced on; SIGINT at a random instant (every 11th run); plus 11 '
         'usage-error cases x 2 entry points; distinct non-trivial = '
         'distinct not-well-formed input texts')
     ctx.assumptions = [
@@ -407,7 +420,7 @@ def run(ctx):
         'SIGINT is sent to the main pid only'
     ]
     ctx.judge_watchdog('runs')
-    if ctx.counters.get('usage_error_cases', 0) < 16:
+    if ctx.counters.get('usage_error_cases', 0) < 22:
         ctx.inconclusive_because('usage-error cases incomplete')
 
 
